@@ -241,6 +241,7 @@ def run_harnesses(res, cfg, sc, tier, overlay_done=False):
                 full = [k for k in r if k.endswith("::" + h["name"])]
                 results[h["name"]] = r[full[0]] if full else {"status": "TIMEOUT" if timed_out else "MISSING", "text": raw[-1500:]}
     res.log["kani_cmd"] = " ; ".join(res.log.get("kani_cmds", []))
+    have_cex = {}
     for h in want:
         r = results[h["name"]]
         oid = "kani:" + h["name"]
@@ -258,6 +259,13 @@ def run_harnesses(res, cfg, sc, tier, overlay_done=False):
         elif st == "FAILED":
             o["status"] = "failed"
             o["verifier_output"] = r["text"]
+            donor = have_cex.get(h.get("function", h["name"]))
+            if donor is not None:
+                # a counterexample for the same function under contract was already extracted on this run: do not pay for another playback
+                rp = dict(donor); rp["borrowed_from"] = donor.get("harness"); rp["harness"] = h["name"]
+                o["replay"] = rp
+                res.obligations.append(o)
+                continue
             vals = playback(sc, fq_name(h), bool(h.get("stubbing")), cwd=(os.path.join(sc.dir, "ext") if h.get("crate") == "ext" else None),
                             tdir=("target-kani-ext" if h.get("crate") == "ext" else "target-kani"), has_cex=bool(h.get("cex")))
             rp = {"harness": h["name"], "test": h.get("replay_test"), "concrete_values": vals, "found_input": False}
@@ -272,6 +280,8 @@ def run_harnesses(res, cfg, sc, tier, overlay_done=False):
                     rp["found_input"] = True
                     rp["note"] = "counterexample produced by CBMC on the real function (values in the order of the harness's kani::any() calls); no native replay driver for this harness"
             o["replay"] = rp
+            if rp.get("found_input"):
+                have_cex[h.get("function", h["name"])] = rp
         else:
             o["status"] = "undecided"
             res.undecided.append("Kani harness %s: %s" % (h["name"], st))
